@@ -439,7 +439,6 @@ def plan(tier):
         graphs=[("rt", consts("rt", 2, a2=(1, 2), a3=(1,), tdk=6)), ("rt", consts("rt", 3, a2=(1,), tdk=0)),
                 ("ag", consts("ag", 2, remotes=("r1",), tdk=0)), ("comp", consts("comp", 1, tdk=0))],
         b3=[consts("rt", 2, a2=(1,), ghost=True, lag=3, tdk=0),
-            consts("rt", 3, a2=(1,), ghost=True, lag=2, tdk=0),
             consts("ag", 2, ghost=True, lag=3, tdk=0),
             consts("ag", 2, remotes=("r1",), ghost=True, lag=2, watched=("r1",), tdk=0),
             consts("ag", 2, remotes=("r1",), ghost=True, lag=1, watched=("L",), tdk=0),
